@@ -213,7 +213,9 @@ func (tt *Txs) ReadFrom(r io.Reader) (int64, error) {
 		return bytesRead, err
 	}
 
-	*tt = make([]*Tx, txCount)
+	// txCount comes from the (untrusted) stream: grow the list as transactions
+	// arrive rather than allocating it up front.
+	*tt = make([]*Tx, 0)
 
 	for i := uint64(0); i < uint64(txCount); i++ {
 		tx := new(Tx)
@@ -223,7 +225,7 @@ func (tt *Txs) ReadFrom(r io.Reader) (int64, error) {
 			return bytesRead, err
 		}
 
-		(*tt)[i] = tx
+		*tt = append(*tt, tx)
 	}
 
 	return bytesRead, nil
